@@ -678,17 +678,38 @@ func mutate(r *rand.Rand, SvcNames []string, name string, prev *DescSpec, others
 // GenHistory produces a history of n ops over the targets. With churn the targets are closed and
 // re-watched much more often (stale bookkeeping left behind by Close shows only after a re-watch).
 func GenHistory(r *rand.Rand, n int, churn bool, mut func(r *rand.Rand, name string, prev *DescSpec, others []*DescSpec) *DescSpec) []Op {
-	TargetNames := TargetNames
+	mode := ModeNormal
 	if churn {
+		mode = ModeChurn
+	}
+	return GenHistoryMode(r, n, mode, mut)
+}
+
+// History shapes: normal; churn (two targets, frequent close / re-watch); contest (three targets competing for
+// very few services with frequent closes: claims pile up behind an owner, the owner drops or closes, waiting
+// claimants update / drop / close while waiting, re-claims go to the back - fix D31).
+const (
+	ModeNormal = iota
+	ModeChurn
+	ModeContest
+)
+
+func GenHistoryMode(r *rand.Rand, n int, mode int, mut func(r *rand.Rand, name string, prev *DescSpec, others []*DescSpec) *DescSpec) []Op {
+	TargetNames := TargetNames
+	if mode == ModeChurn {
 		TargetNames = TargetNames[:2]
 	}
 	var ops []Op
 	watched := map[string]bool{}
 	last := map[string]*DescSpec{}
 	closeBelow := 5
-	if churn {
+	switch mode {
+	case ModeChurn:
 		closeBelow = 8
 		genStats["history:churn"]++
+	case ModeContest:
+		closeBelow = 7
+		genStats["history:contest"]++
 	}
 	for len(ops) < n {
 		name := common.Pick(r, TargetNames)
@@ -825,6 +846,8 @@ func (Area) Gen(r *rand.Rand, tier string, emit func(string)) {
 		}
 		if i%3 == 2 { // churn: two targets, two services, frequent close / re-watch
 			l.Ops = GenHistory(r, 2+r.Intn(maxOps-1), true, MutateWith(SvcNames[:2]))
+		} else if i%3 == 1 { // contest: three targets, two services
+			l.Ops = GenHistoryMode(r, 3+r.Intn(maxOps-2), ModeContest, MutateWith(SvcNames[:2]))
 		} else {
 			l.Ops = GenHistory(r, 2+r.Intn(maxOps-1), false, Mutate)
 		}
